@@ -265,7 +265,8 @@ def rt_arrays_and_planning(seed, n):
                 warnings.simplefilter('ignore')
                 m = mk()
                 tf = m.transition_matrix
-                ok = bool(np.isclose(tf.sum(-1)[m.action_matrix.astype(bool)], 1).all()) and np.isfinite(m.reward_matrix).all()
+                live = m.action_matrix.astype(bool) & ~np.asarray(m.absorbing_state_vec, dtype=bool)[:, None]   # rows of absorbing states are never followed (and may lack successors outside the state list)
+                ok = bool(np.isclose(tf.sum(-1)[live], 1).all()) and np.isfinite(m.reward_matrix).all()
                 res = ValueIteration(max_iterations=2000).plan_on(m)
                 ok = ok and all(math.isfinite(x) or x == -math.inf for x in res.state_value.values())
                 if hasattr(m, 'observation_matrix'):
